@@ -19,7 +19,7 @@ def meta(pid, proved, tested_only="", rule=COMMON_RULE, assumptions=None):
 
 A_FLOAT = "floating-point rounding is outside the theorems; float results are compared with the exact model within 1e-9 on dyadic inputs"
 A_CY = "the .pyx sources are executed under Python semantics (de-cythoniser); a real compiled extension is outside"
-A_RQ = "theorems are about the R instance of the polymorphic model; the executed instance is Q (same terms)"
+A_RQ = "theorems are about the R instance of the polymorphic model; the executed Q instance is tied to it by the kernel-checked parametricity bridge (Bridge.v; the transfer theorems used are restated at the end of each Props file)"
 
 for _p in ["C%02d" % i for i in range(1, 21)]:
     meta(_p, "see coq/Props/%s.v" % _p, assumptions=[A_FLOAT, A_CY, A_RQ])
@@ -78,7 +78,7 @@ meta("C08",
 meta("C09",
      proved="pwc_add / pwl_add (merge + tail copies) = declarative pointwise sum on the strictly increasing union; values, integrals add; commutative, associative (pwc), mul pointwise; for EVERY history of add/mul/copy/new: no error, well-formed, exactly the tracked linear combination (values at generic times, integral, breakpoints), also pwl; heap model: no two objects share an array, add/mul leave every other object untouched, copies independent, heap refines the value model",
      tested_only="that numpy objects behave like the heap model (aliasing monitor: np.shares_memory between all live objects, operand snapshots) and model = /repo for the add routines / class methods (both backends)",
-     rule="all pairs of breakpoint sets with <=3 (thorough 4) interior points on the 1/6 resp. 1/8 grid with random values; random histories of <= 6 ops over 2-3 objects with aliasing monitor; a+b+c in all orders; distinct by canonical encoding",
+     rule="all pairs of breakpoint sets with <=3 (thorough: <=4, sampled) interior points on the 1/8 grid with random values; random histories of <= 6 ops over 2-3 objects with aliasing monitor; a+b+c in all orders; distinct by canonical encoding",
      assumptions=[A_FLOAT, A_CY, A_RQ, "Heap.v is a model of CPython/numpy object semantics (constructor copies, add rebinds, mul_scalar in place); its tie to numpy is the run-time monitor"])
 meta("C10",
      proved="pwc/pwl integral over every [a,b] inside the support = exact overlap integral (both index-search branches); full support; additivity over adjacent intervals; ValueError bounds (pwc); average over one / several intervals; evaluation = piece value / mean of limits / one-sided limit; scalar path = list path; pwl plottable arrays",
